@@ -287,11 +287,14 @@ pub fn check_field_hints(choices: &Vec<u16>) -> Out {
             let hint = if honest {
                 None
             } else {
-                Some(match ch.pick(5) {
-                    0 => vec![inv.0, inv.1], // swapped order candidates
+                Some(match ch.pick(8) {
+                    0 => vec![inv.0, inv.1], // both orders: one of them is the honest hint
                     1 => vec![inv.1, inv.0],
                     2 => vec![fe::add(inv.1, 1), inv.0],
                     3 => vec![0, 0],
+                    4 => vec![inv.1, fe::add(inv.0, 1)],
+                    5 => vec![fe::add(inv.0, 1), inv.1],
+                    6 => vec![inv.0, fe::add(inv.1, 1)],
                     _ => vec![ch.felt(), ch.felt()],
                 })
             };
@@ -320,6 +323,9 @@ pub fn check_field_hints(choices: &Vec<u16>) -> Out {
                     a = b.checked_mul(k).unwrap_or(b);
                 }
                 1 => a = b,
+                // dividend smaller than the divisor: the only class in which q*b + r can reach
+                // a + 2^64 without q*b itself exceeding 64 bits
+                2 => a = if b > 1 { ch.u64() % b } else { 0 },
                 _ => {}
             }
             let (q, r) = (a / b, a % b);
@@ -337,21 +343,27 @@ pub fn check_field_hints(choices: &Vec<u16>) -> Out {
             let hint = if honest {
                 None
             } else {
-                // popped first first: the honest order is q_hi, q_lo, r_hi, r_lo
+                // in the order in which adv_push pops them: the honest injector pushes r_hi, r_lo,
+                // q_hi, q_lo, so q_lo is popped first, then q_hi, r_lo, r_hi
                 let (qh, ql, rh, rl) = (q >> 32, q & 0xFFFF_FFFF, r >> 32, r & 0xFFFF_FFFF);
-                Some(match ch.pick(9) {
-                    0 => vec![qh, fe::add(ql, 1), rh, rl],
-                    1 => vec![qh, ql, rh, fe::add(rl, 1)],
-                    2 => vec![rh, rl, qh, ql],
-                    3 => vec![ql, qh, rl, rh],
-                    4 => {
-                        // q-1, r+b : satisfies a = q*b + r but r >= b
-                        let (q2, r2) = (q.wrapping_sub(1), r.wrapping_add(b));
-                        vec![q2 >> 32, q2 & 0xFFFF_FFFF, r2 >> 32, r2 & 0xFFFF_FFFF]
+                let pair = |q2: u64, r2: u64| vec![q2 & 0xFFFF_FFFF, q2 >> 32, r2 & 0xFFFF_FFFF, r2 >> 32];
+                Some(match ch.pick(11) {
+                    0 => vec![fe::add(ql, 1), qh, rl, rh],
+                    1 => vec![ql, qh, fe::add(rl, 1), rh],
+                    2 => vec![rl, rh, ql, qh],
+                    3 => vec![qh, ql, rh, rl],
+                    // q-1, r+b : satisfies a = q*b + r but r >= b
+                    4 => pair(q.wrapping_sub(1), r.wrapping_add(b)),
+                    5 => vec![ql + (1 << 32), qh, rl, rh], // limb >= 2^32
+                    6 => vec![fe::add(ql, 1 << 32), fe::sub(qh, 1), rl, rh], // same 64-bit value, non-u32 limbs
+                    7 => pair(0, a), // q = 0, r = a
+                    8 if b >= 2 => {
+                        // q*b + r = a + 2^64 with r < b and q < 2^64: right modulo 2^64 only
+                        let t = a as u128 + (1u128 << 64);
+                        pair((t / b as u128) as u64, (t % b as u128) as u64)
                     }
-                    5 => vec![qh, ql + (1 << 32), rh, rl], // limb >= 2^32
-                    6 => vec![fe::sub(qh, 1), fe::add(ql, 1 << 32), rh, rl], // same 64-bit value, non-u32 limbs
-                    7 => vec![0, 0, a >> 32, a & 0xFFFF_FFFF], // q = 0, r = a
+                    // q+1, r-b (mod 2^64)
+                    9 => pair(q.wrapping_add(1), r.wrapping_sub(b)),
                     _ => vec![ch.felt(), ch.felt(), ch.felt(), ch.felt()],
                 })
             };
@@ -405,6 +417,51 @@ pub fn check_merkle(choices: &Vec<u16>) -> Out {
             _ => PathMode::Honest,
         }
     };
+    // an index that does not exist at the claimed depth, with a host that answers as if it were
+    // the index reduced modulo 2^depth (node and path of a real position): no node lives there,
+    // so nothing may complete
+    if !honest && ch.chance(1, 5) {
+        let bad = match ch.pick(5) {
+            0 => idx_d + (1u64 << d),
+            1 => idx_d + (1u64 << 32),
+            2 => idx_d + (1u64 << 32) * (1 + ch.pick(1000) as u64),
+            3 => idx_d + (1u64 << 63),
+            _ => (1u64 << d) + ((ch.pick(4) as u64) << d),
+        };
+        let real = bad % (1u64 << d);
+        let script = Script { stack_hint: None, node_hint: Some(node_at(d, real)), path: PathMode::Of(root, d, real) };
+        let (ins, stack) = match ch.pick(3) {
+            0 => {
+                let mut st = vec![d as u64, bad];
+                st.extend(root_top.clone());
+                ("mtree_get", st)
+            }
+            1 => {
+                let mut st = w_top(node_at(d, real));
+                st.extend([d as u64, bad]);
+                st.extend(root_top.clone());
+                ("mtree_verify", st)
+            }
+            _ => {
+                let mut st = vec![d as u64, bad];
+                st.extend(root_top.clone());
+                st.extend([5, 6, 7, 8]);
+                ("mtree_set", st)
+            }
+        };
+        let mut stack = stack;
+        stack.extend(SENT);
+        let cj = json!({"instruction": ins, "depth": d, "index": bad, "tree_depth": depth, "host_answers_for_index": real});
+        let r = run_with(&format!("begin {ins} end"), &stack, inputs, script).map_err(|e| Viol::new("C09:setup", e, cj.clone()))?;
+        return match r {
+            Res::Ok(out, _) => Err(Viol::new(
+                format!("C09:wrong-result-accepted:{ins}:index-out-of-range"),
+                format!("{ins} at depth {d} completed for index {bad}, which does not exist at that depth (the host answered for index {real}); stack top {:?}", &out[..8.min(out.len())]),
+                cj,
+            )),
+            Res::NotCompleted(_) => Ok(Info { nontrivial: Some(fp_str(&format!("{ins}|bad-index|{}", cj))), classes: vec![format!("{ins}:index-out-of-range-rejected")], sample: Some(cj), ..Info::default() }),
+        };
+    }
     let which = ch.pick(3);
     match which {
         0 => {
